@@ -59,14 +59,14 @@ theorem strOutcome_wf (p : Option Text) :
   · exact ⟨by intro raw h; simp at h, by intro e h; simp at h; subst h; exact hinv⟩
 
 theorem kind_names (m : Text) (k : MKind) (h : kindOfMethod m = some k) (hk : k ≠ .subscribe) :
-    m = nUnsub ∨ m = nEcho ∨ m = nSum ∨ m = nFail ∨ m = nStr ∨ m = nEsc ∨ m = nAEcho ∨ m = nASum ∨ m = nBlkEcho ∨ m = nBlkBoom ∨ m = nRpcE := by
+    m = nUnsub ∨ m = nEcho ∨ m = nSum ∨ m = nFail ∨ m = nStr ∨ m = nEsc ∨ m = nAEcho ∨ m = nASum ∨ m = nBlkEcho ∨ m = nBlkBoom ∨ m = nRpcE ∨ m = nBadSer := by
   unfold kindOfMethod at h
   split at h
   · simp at h; exact absurd h.symm hk
   split at h
   · rename_i hm; left; simpa using hm
   split at h
-  · rename_i hm; simp at hm; right; rcases hm with ((((hm | hm) | hm) | hm) | hm) | hm <;> simp [hm]
+  · rename_i hm; simp at hm; right; rcases hm with (((((hm | hm) | hm) | hm) | hm) | hm) | hm <;> simp [hm]
   split at h
   · rename_i hm; simp at hm; right; right; right; right; right; right; rcases hm with hm | hm <;> simp [hm]
   split at h
@@ -75,11 +75,11 @@ theorem kind_names (m : Text) (k : MKind) (h : kindOfMethod m = some k) (hk : k 
 
 /-- every outcome of every (non-subscribe) handler of the harness registry is a well-formed payload -/
 theorem outcomeOf_wf (m : Text) (p : Option Text) (hp : optRawWF p)
-    (hm : m = nUnsub ∨ m = nEcho ∨ m = nSum ∨ m = nFail ∨ m = nStr ∨ m = nEsc ∨ m = nAEcho ∨ m = nASum ∨ m = nBlkEcho ∨ m = nBlkBoom ∨ m = nRpcE) :
+    (hm : m = nUnsub ∨ m = nEcho ∨ m = nSum ∨ m = nFail ∨ m = nStr ∨ m = nEsc ∨ m = nAEcho ∨ m = nASum ∨ m = nBlkEcho ∨ m = nBlkBoom ∨ m = nRpcE ∨ m = nBadSer) :
     (∀ raw, outcomeOf m p = .result raw → Stable raw) ∧ (∀ e, outcomeOf m p = .error e → e.WF) := by
   have hecho : (∀ raw, Outcome.result (paramsText p) = .result raw → Stable raw) ∧ (∀ e, Outcome.result (paramsText p) = .error e → e.WF) :=
     ⟨by intro raw h; simp at h; subst h; exact paramsText_stable p hp, by intro e h; simp at h⟩
-  rcases hm with h | h | h | h | h | h | h | h | h | h | h <;> subst h
+  rcases hm with h | h | h | h | h | h | h | h | h | h | h | h <;> subst h
   · exact ⟨by intro raw h; simp [outcomeOf, nUnsub, nEcho, nAEcho, nBlkEcho, nRpcE, nSum, nASum, nFail, nStr, nEsc, nBlkBoom] at h; subst h; exact stable_false,
       by intro e h; simp [outcomeOf, nUnsub, nEcho, nAEcho, nBlkEcho, nRpcE, nSum, nASum, nFail, nStr, nEsc, nBlkBoom] at h⟩
   · simpa [outcomeOf, nEcho, nRpcE] using hecho
@@ -98,6 +98,11 @@ theorem outcomeOf_wf (m : Text) (p : Option Text) (hp : optRawWF p)
   · exact ⟨by intro raw h; simp [outcomeOf, nBlkBoom, nEsc, nStr, nFail, nEcho, nAEcho, nBlkEcho, nRpcE, nSum, nASum] at h,
       by intro e h; simp [outcomeOf, nBlkBoom, nEsc, nStr, nFail, nEcho, nAEcho, nBlkEcho, nRpcE, nSum, nASum] at h⟩
   · simpa [outcomeOf, nRpcE, nEcho, nAEcho, nBlkEcho] using hecho
+  · refine ⟨by intro raw h; simp [outcomeOf, nBadSer, nUnsub, nBlkBoom, nEsc, nStr, nFail, nEcho, nAEcho, nBlkEcho, nRpcE, nSum, nASum] at h, ?_⟩
+    intro e h
+    simp [outcomeOf, nBadSer, nUnsub, nBlkBoom, nEsc, nStr, nFail, nEcho, nAEcho, nBlkEcho, nRpcE, nSum, nASum] at h
+    subst h
+    exact ⟨by decide, by decide, by simp [errNoData]⟩
 
 /-- **C01.1 (well-formedness, unconditional for the registry)** — every reply to a valid call of a
 non-subscription method of the harness registry parses back as a JSON-RPC 2.0 response carrying the
